@@ -108,13 +108,35 @@ func CreateAbsoluteURL(url string, base *nurl.URL) string {
 		return url
 	}
 
-	// Otherwise, resolve against base URI.
-	tmp, err = nurl.Parse(url)
+	// Otherwise, resolve against base URI. The characters that may not be written
+	// in an URL as they are (a space, non-ASCII ...) are escaped first: with such a
+	// character in its path the URL is written out from its decoded path, where an
+	// escaped reserved character of the page (%2F, %3F ...) is the character
+	// itself and changes what the URL refers to.
+	tmp, err = nurl.Parse(escapeInvalidURLChars(url))
 	if err != nil {
 		return url
 	}
 
 	return base.ResolveReference(tmp).String()
+}
+
+func escapeInvalidURLChars(url string) string {
+	const upperHex = "0123456789ABCDEF"
+
+	var sb strings.Builder
+	for i := 0; i < len(url); i++ {
+		c := url[i]
+		if c <= ' ' || c >= 0x7f || strings.IndexByte("\"<>^`{|}", c) >= 0 {
+			sb.WriteByte('%')
+			sb.WriteByte(upperHex[c>>4])
+			sb.WriteByte(upperHex[c&15])
+		} else {
+			sb.WriteByte(c)
+		}
+	}
+
+	return sb.String()
 }
 
 // TrimTrailingSlash removes the trailing slash of the path of the URL, from the
